@@ -19,7 +19,7 @@ RULE = (
     'non-trivial = the step ran and >=1 Taylor coefficient was compared; distinct by parameters'
 )
 ASSUMPTIONS = [
-    'N=64 points on |z|=0.4 (SDC) / 0.25 (RK); aliasing error <= r^N; coefficient tolerance 1e-9/r^n absolute (FFT round-off amplified by r^-n)',
+    'N=64 points on |z|=0.4 (SDC; 40x40 on 0.25 for IMEX) / 0.25 (RK), the circle shrunk to half the distance of the nearest pole 1/eig(QDelta); aliasing is gated a posteriori: a k whose mid-band Fourier coefficients exceed 1e-8 is counted as unresolved, not judged (geometric decay of the coefficients of a rational function assumed); coefficient tolerance 1e-9/r^n absolute (FFT round-off amplified by r^-n)',
     'documented RK orders are taken from the repository\'s own test table (expected local order minus one), part of the trusted base',
     'QDelta names the sweeper rejects for a node set are observed and listed, not failed',
 ]
@@ -104,16 +104,34 @@ def run_sdc(case, r):
     w = np.array(gen.weights)
     dt = 0.25
     right = qt in ('LOBATTO', 'RADAU-RIGHT')
+    # the Cauchy/FFT extraction needs the step function analytic inside the circle: its poles sit at 1/eig(QDelta_implicit)
+    # (MIN-type coefficients on equidistant nodes can exceed 1/rad), so the circle is shrunk to half the pole distance
+    try:
+        with np.errstate(all='ignore'):
+            rho = float(np.max(np.abs(np.linalg.eigvals(ref.qdelta(gen, case['q1'], 1))))) if case['q1'] is not None else 0.0
+    except Exception:  # noqa
+        rho = 0.0
+    if np.isfinite(rho) and rho > 0:
+        shrink = min(1.0, 0.5 / (rho * (0.25 if role == 'imex' else 0.4)))
+    else:
+        shrink = 1.0
+    if shrink < 0.2:
+        r.count('pole_too_close_for_extraction')
+        r.observe('pole_too_close', f"{case['q1']}:{nt}/{qt}/{M}")
+        r.check(True, 'noop', '')
+        return
+    if shrink < 1.0:
+        r.count('circle_shrunk_for_pole')
     if role == 'imex':
-        N = 24
-        rad = 0.25
+        N = 40
+        rad = 0.25 * shrink
         zz = rad * np.exp(2j * np.pi * np.arange(N) / N)
         ZI, ZE = np.meshgrid(zz, zz, indexing='ij')
         lamI, lamE = (ZI / dt).reshape(-1), (ZE / dt).reshape(-1)
         sw, base = imex_1st_order, dict(QI=case['q1'], QE=case['q2'])
     else:
         N = 64
-        rad = 0.4
+        rad = 0.4 * shrink
         z = rad * np.exp(2j * np.pi * np.arange(N) / N)
         lam = z / dt
         sw, base = (generic_implicit, dict(QI=case['q1'])) if role == 'impl' else (explicit, dict(QE=case['q2']))
@@ -174,6 +192,13 @@ def run_sdc(case, r):
             if role == 'imex':
                 Rm = R.reshape(N, N)
                 C = np.fft.fft2(Rm) / (N * N)
+                # a-posteriori aliasing gate: the mid-band Fourier coefficients bound what folds back onto the low ones
+                # (geometric decay of a rational function's coefficients): alias ~ tail^2
+                h = N // 2
+                tail = float(max(np.max(np.abs(C[h - 2 : h + 3, :])), np.max(np.abs(C[:, h - 2 : h + 3]))))
+                if not np.isfinite(tail) or tail > 1e-8:
+                    r.count('k_unresolved_aliasing')
+                    continue
                 for a in range(ordk + 1):
                     for b in range(ordk + 1 - a):
                         got = C[a, b] / rad ** (a + b)
@@ -181,6 +206,11 @@ def run_sdc(case, r):
                         tol = (1e-9 + roundoff + 50 * rad**N) / rad ** (a + b)
                         r.check(abs(got - exp) <= tol, 'sdc-order-min-k-p', f'{r.key} coll_update={cu} k={k}: coefficient of zI^{a} zE^{b} is {got:.6g}, exp(zI+zE) has {exp:.6g} (order min(k,p)={ordk})', k=k)
             else:
+                F = np.fft.fft(R) / N
+                tail = float(np.max(np.abs(F[N // 2 - 3 : N // 2 + 4])))
+                if not np.isfinite(tail) or tail > 1e-8:
+                    r.count('k_unresolved_aliasing')
+                    continue
                 c = taylor(R, z, ordk)
                 for n in range(ordk + 1):
                     tol = (1e-9 + roundoff) / rad**n
